@@ -127,6 +127,13 @@ CHECKS = {
         "text": "Call sequences over 8 watches (2 paths x recursive x filter, equal ones on purpose) and 3 handlers, with schedule() calls whose emitter construction or start is made to fail, run single-threaded under the deterministic scheduler; after every call the emitters must be exactly the model's watches and a unique marker queued through every live emitter must reach exactly the model's handler set; unknown watches/handlers must raise KeyError and change nothing. All sequences of length <= 3/4 over a 1-watch/2-handler universe (x with/without a leading start) are enumerated.",
         "note": "The model keys are plain (path, recursive, filter) tuples, independent of ObservedWatch.__eq__. Single application thread; interleavings belong to C04-C06.",
     },
+    "C06": {
+        "engine": "dsched",
+        "design_ref": "DESIGN.md §3.2, §4 C06",
+        "technique": "property-based testing over API call orders and schedules: real observer with scripted, inotify-over-simulated-kernel and polling-over-VFS emitters under a deterministic scheduler; exhaustive short call sequences, bounded DFS over two-thread programs, random programs x random schedules; deadlock / livelock / thread-leak oracle",
+        "text": "Every sequence of up to 3 (quick) / 4 (thorough) calls from {start, schedule, unschedule, unschedule_all, stop} x three emitter kinds runs under the default schedule; eight two-thread programs (with re-entrant calls from callbacks and a root that disappears) get every schedule with <= 1/2 preemptions at line granularity; random programs get random schedules. Each run ends with stop(); join() on main. A state with no runnable thread and no timed waiter while a thread is unfinished is a deadlock; an exhausted step budget a livelock; any library thread (observer, emitter, InotifyBuffer reader) alive after quiescence a leak; an uncaught exception in a library thread is reported too.",
+        "note": "Trusted: vlib/dsched, vlib/simkernel.py (validated against the real kernel in setup), vlib/vfs.py. Calls may raise; the final stop()+join() is part of every program, so a schedule() issued after an earlier stop() is cleaned up by the final stop().",
+    },
 }
 
 ALL = [f"C{i:02d}" for i in range(1, 21)]
